@@ -517,7 +517,31 @@ class _NoBool(list):
         raise ValueError("truth value is ambiguous")
 
 
+class _MixEnum(int, __import__("enum").Enum):
+    """an Enum with int mixed in (not an IntEnum): it IS an int, and formats as its member name"""
+    OK = 20
+    GONE = 52
+
+
+class _OddInt(int):
+    """an int whose text is not its digits (a unit-carrying or pretty-printing subclass)"""
+
+    def __str__(self):
+        return "twenty"
+
+    __format__ = lambda self, spec: "twenty"      # noqa: E731
+
+
+class _NoInt(int):
+    def __int__(self):
+        raise RuntimeError("no plain value")
+
+
 ODD = {
+    "status=mixed-enum": lambda: (_MixEnum.OK, "text/gemini", "ok\n"),
+    "status=mixed-enum,52": lambda: (_MixEnum.GONE, "Gone", None),
+    "status=int-with-odd-text": lambda: (_OddInt(20), "text/gemini", "ok\n"),
+    "status=int-without-int": lambda: (_NoInt(20), "text/gemini", "ok\n"),
     "meta=str-raises": lambda: (20, _NoStr(), "ok\n"),
     "meta=str-raises,51": lambda: (51, _NoStr(), None),
     "body=str-raises": lambda: (20, "text/gemini", _NoStr()),
